@@ -1,0 +1,101 @@
+//! Hooks for external runtime-verification harnesses.
+//!
+//! Only compiled when rustc is invoked with `--cfg rten_verif`. Allows a
+//! harness to force [`dispatch`](crate::dispatch::dispatch) to use a specific
+//! instruction set, so that code paths which the host CPU would not normally
+//! select can be exercised.
+
+use std::sync::atomic::{AtomicU8, Ordering};
+
+use crate::SimdOp;
+
+/// Instruction sets that dispatch can be forced to use.
+#[derive(Clone, Copy, Debug, PartialEq, Eq)]
+pub enum IsaKind {
+    Generic,
+    Avx2,
+    Avx512,
+}
+
+static FORCED_ISA: AtomicU8 = AtomicU8::new(0);
+
+/// Return true if `kind` can be used on this machine.
+pub fn isa_available(kind: IsaKind) -> bool {
+    match kind {
+        IsaKind::Generic => true,
+        #[cfg(target_arch = "x86_64")]
+        IsaKind::Avx2 => crate::arch::x86_64::Avx2Isa::new().is_some(),
+        #[cfg(target_arch = "x86_64")]
+        IsaKind::Avx512 => crate::arch::x86_64::Avx512Isa::new().is_some(),
+        #[cfg(not(target_arch = "x86_64"))]
+        _ => false,
+    }
+}
+
+/// Force all subsequent dispatches, on all threads, to use the given ISA, or
+/// restore normal selection with `None`.
+///
+/// Returns false (and changes nothing) if the ISA is not available.
+pub fn set_forced_isa(kind: Option<IsaKind>) -> bool {
+    let code = match kind {
+        None => 0,
+        Some(kind) if !isa_available(kind) => return false,
+        Some(IsaKind::Generic) => 1,
+        Some(IsaKind::Avx2) => 2,
+        Some(IsaKind::Avx512) => 3,
+    };
+    FORCED_ISA.store(code, Ordering::SeqCst);
+    true
+}
+
+/// Return the ISA which dispatch is currently forced to use, if any.
+pub fn forced_isa() -> Option<IsaKind> {
+    match FORCED_ISA.load(Ordering::SeqCst) {
+        1 => Some(IsaKind::Generic),
+        2 => Some(IsaKind::Avx2),
+        3 => Some(IsaKind::Avx512),
+        _ => None,
+    }
+}
+
+/// Evaluate `op` with the forced ISA, or return it if no ISA is forced.
+#[inline]
+pub(crate) fn dispatch_forced<Op: SimdOp>(op: Op) -> Result<Op::Output, Op> {
+    match forced_isa() {
+        None => Err(op),
+        Some(IsaKind::Generic) => Ok(op.eval(crate::arch::generic::GenericIsa::new())),
+        #[cfg(target_arch = "x86_64")]
+        Some(IsaKind::Avx2) => {
+            #[target_feature(enable = "avx2")]
+            #[target_feature(enable = "avx")]
+            #[target_feature(enable = "fma")]
+            #[target_feature(enable = "f16c")]
+            unsafe fn dispatch_avx2<Op: SimdOp>(isa: impl crate::Isa, op: Op) -> Op::Output {
+                op.eval(isa)
+            }
+            match crate::arch::x86_64::Avx2Isa::new() {
+                // Safety: AVX2 is supported
+                Some(isa) => Ok(unsafe { dispatch_avx2(isa, op) }),
+                None => Err(op),
+            }
+        }
+        #[cfg(target_arch = "x86_64")]
+        Some(IsaKind::Avx512) => {
+            #[target_feature(enable = "avx512f")]
+            #[target_feature(enable = "avx512vl")]
+            #[target_feature(enable = "avx512bw")]
+            #[target_feature(enable = "avx512dq")]
+            #[target_feature(enable = "f16c")]
+            unsafe fn dispatch_avx512<Op: SimdOp>(isa: impl crate::Isa, op: Op) -> Op::Output {
+                op.eval(isa)
+            }
+            match crate::arch::x86_64::Avx512Isa::new() {
+                // Safety: AVX-512 is supported
+                Some(isa) => Ok(unsafe { dispatch_avx512(isa, op) }),
+                None => Err(op),
+            }
+        }
+        #[cfg(not(target_arch = "x86_64"))]
+        Some(_) => Err(op),
+    }
+}
